@@ -232,6 +232,9 @@ func (t *ctrans) call(target raft.ServerAddress, cmd interface{}, body io.Reader
 			if !ok {
 				return nil, errLink
 			}
+			if err == nil {
+				c.h.add(hev{kind: "dlv", node: t.id, inst: t.inst, a: to, b: kind, s: fmt.Sprint(sendSeq)})
+			}
 			return resp, err
 		case <-time.After(c.net.holdTO):
 			return nil, errLink
@@ -243,6 +246,10 @@ func (t *ctrans) call(target raft.ServerAddress, cmd interface{}, body io.Reader
 	// a response that arrives after the link went down is lost
 	if c.net.mode(t.id, to) == linkDown || c.net.mode(to, t.id) == linkDown {
 		return nil, errLink
+	}
+	if err == nil {
+		// the caller is handed the answer now
+		c.h.add(hev{kind: "dlv", node: t.id, inst: t.inst, a: to, b: kind, s: fmt.Sprint(sendSeq)})
 	}
 	return resp, err
 }
@@ -328,6 +335,7 @@ type clusterOpts struct {
 	notify            bool
 	snapThreshold     uint64
 	commitTimeout     time.Duration
+	fsmDelay          time.Duration
 	spares            int // extra servers with empty stores, not part of the initial configuration
 }
 
@@ -431,7 +439,7 @@ func (n *cnode) start() error {
 	n.logs.monotonic = c.o.monotonic
 	n.logs.orc, n.stable.orc, n.snaps.orc = &oracle{}, &oracle{}, &oracle{}
 	n.trans = &ctrans{c: c, id: n.id, inst: inst, consumer: make(chan raft.RPC, 64)}
-	fsm := &RecFSM{idOfLog: c.idOfLog}
+	fsm := &RecFSM{idOfLog: c.idOfLog, delay: c.o.fsmDelay}
 	n.fsm = fsm
 	n.mu.Unlock()
 	durable := func() {
@@ -789,6 +797,11 @@ func (c *cluster) call(id uint64, kind string, pay uint64, arg uint64) *ccall {
 			}
 		case "snapshot":
 			cc.err = r.Snapshot().Error()
+		case "restore":
+			// arg = index recorded in the user snapshot's metadata; content = two payload ids derived from pay
+			body := encState([]uint64{pay, pay + 1})
+			meta := &raft.SnapshotMeta{Version: 1, ID: "user", Index: arg, Term: 1, Size: int64(len(body))}
+			cc.err = r.Restore(meta, bytes.NewReader(body), 100*time.Millisecond)
 		case "getconfig":
 			cc.err = r.GetConfiguration().Error()
 		}
